@@ -14,7 +14,7 @@ CONSTANTS
   AutoApprove = TRUE
   Opts = {"nooct"}
   ReportOnce = TRUE
-  MaxLevel = 14
+  MaxLevel = 12
   EmitJson = FALSE
   PruneOnlyOwned = FALSE
   AtomicPush = TRUE
